@@ -402,8 +402,11 @@ def main(argv=None):
 		wall_s=round(time.time() - ctx.t0, 2),
 		violations=len(new_violations) + (1 if (ctx.broken and not new_violations) else 0),
 	)
-	os.makedirs(os.path.join(VERIF, 'evidence'), exist_ok=True)
-	with open(os.path.join(VERIF, 'evidence', f'{prop}.json'), 'w') as f:
+	# the committed evidence directory only ever holds runs against /repo itself; a run against another tree
+	# (VERIF_REPO=<scratch copy with a seeded change>) writes under replays/ (git-ignored)
+	evdir = os.path.join(VERIF, 'evidence') if os.path.realpath(repo) == '/repo' else os.path.join(VERIF, 'replays', 'evidence-other-tree')
+	os.makedirs(evdir, exist_ok=True)
+	with open(os.path.join(evdir, f'{prop}.json'), 'w') as f:
 		json.dump(evidence, f, indent=1, default=str)
 	print(f'[{prop}] {tier}: theorems {n_thm_ok}/{n_thm}, correspondences {corr_ok}/{len(corr)}, '
 	      f'{ctx.evaluations} cases ({len(ctx.nontrivial)} distinct non-trivial), {evidence["wall_s"]}s, exit {exit_code}')
